@@ -297,7 +297,18 @@ class HistRunner:
         for n, pids, pid2 in overlaps(recs):
             anoms.append(Anomaly(cls='overlap', key='overlap', target=n, what='%s: overlapping executions' % n))
         exp = set(ctx['ran'])
-        for n in sorted(set(ex) - exp):
+        extra_obs = set(ex) - exp
+        if extra_obs and j > 1 and not keep and (not ok or r.rc != 0):
+            # A failing parallel command: redo judged the requested targets side by side, before the failure was known, and had
+            # already handed the checksummed targets they need to out-of-band builds.  Such a script is legitimate if the command
+            # would have run it anyway had the failure not stopped it: compare with the same command under --keep-going.
+            mk = m_before.copy()
+            _okk, ctxk = mk.command(list(targets), forced=forced, keep=True)
+            may = set(ctxk['ran'])
+            self.stats['extra_runs_in_failing_parallel_explained_by_keep_going_set'] = \
+                self.stats.get('extra_runs_in_failing_parallel_explained_by_keep_going_set', 0) + len(extra_obs & may)
+            extra_obs -= may
+        for n in sorted(extra_obs):
             anoms.append(Anomaly(cls='overbuild', key='overbuild:%s:%s' % (kinds_of(p, n), 'stamp-below' if stamp_below(p, n) else 'no-stamp-below'),
                                  target=n, what='%s ran although the model finds no reason' % n))
         # In a failing parallel command without --keep-going, what was started before the failure became known
